@@ -21,6 +21,7 @@ import Wz.Proofs.C01_groups
 import Wz.Model.CalleeSaved
 import Wz.Gen.RegSaved
 import Wz.Model.ParMove
+import Wz.Proofs.C01_parmove
 import Wz.Gen.BlockArgs
 
 namespace Wz.C01
@@ -279,6 +280,20 @@ theorem block_arguments_later_source_witness :
     let ρ : Wz.Model.ParMove.Env := fun r => [16, 5, 0].getD r 0   -- r0 = new value, r1 = cur, r2 = prev
     Wz.Model.ParMove.separated [(0, 1), (1, 2)] = false ∧
     Wz.Model.ParMove.seqMoves [(0, 1), (1, 2)] ρ 2 = 16 ∧ Wz.Model.ParMove.parMoves [(0, 1), (1, 2)] ρ 2 = 5 := by decide
+
+/-- **The temporaries branch is sound as well**: moving every source into a fresh temporary and then every
+temporary into its destination implements the parallel assignment on all registers but the temporaries - for
+every edge list with distinct destinations and every list of as many distinct temporaries that are neither a
+source nor a destination.  Together with the theorem above: whichever branch `lowerBlockArguments` takes, the
+jump's arguments arrive as the semantics of block parameters says. -/
+theorem block_arguments_via_temporaries_sound (es : List (Nat × Nat)) (temps : List Nat) (ρ : Wz.Model.ParMove.Env)
+    (hl : es.length = temps.length) (hd : (es.map (·.2)).Nodup) (ht : temps.Nodup)
+    (hfresh : ∀ t ∈ temps, ∀ e ∈ es, e.1 ≠ t ∧ e.2 ≠ t) :
+    ∀ r, r ∉ temps → Wz.Model.ParMove.viaTemps es temps ρ r = Wz.Model.ParMove.parMoves es ρ r :=
+  Wz.Model.ParMove.viaTemps_eq_par es temps ρ hl hd ht hfresh
+
+/-- non-vacuity: the shift `[(new, cur), (cur, prev)]` through temporaries 7 and 8 -/
+example : Wz.Model.ParMove.viaTemps [(0, 1), (1, 2)] [7, 8] (fun r => [16, 5, 0].getD r 0) 2 = 5 := by decide
 
 /-- **Regenerated obligation** (backend/compiler_lower.go): `lowerBlockArguments` first marks the sources of all
 edges, then - in a separate loop - tests every destination against that complete set, then emits the moves. -/
